@@ -2,9 +2,9 @@ SPECIFICATION Spec
 CONSTANTS
   Nodes = {"n2"}
   Extra = {}
-  MaxSurveys = 2
+  MaxSurveys = 3
   MaxDeliver = 4
-  LocalModes = {"sync", "async"}
+  LocalModes = {"sync", "never"}
   DupOK = TRUE
   Causal = TRUE
   LocalSend = "nonblocking"
